@@ -7,7 +7,6 @@ from sa import cfg as cfgmod
 from sa.cfg import ENTRY, EXIT_RET
 from sa.core import AnalysisError, call_name, const, kw, text
 
-from .c05 import r04c
 from .callbacks import callbacks
 
 UTIL = 'cssutils/util.py'
@@ -18,7 +17,9 @@ MEDIA = 'cssutils/css/cssmediarule.py'
 def run(chk):
     chk.attempt(r04a, chk)
     chk.attempt(r04b, chk)
-    chk.attempt(r04c, chk, 'R04.c')
+    from .c05 import r05l
+
+    chk.attempt(r05l, chk, 'R04.c')
     from .c09 import r09c
 
     chk.attempt(r09c, chk, 'R04.e')
